@@ -493,3 +493,21 @@ def streams(tier, rng):
                describe="hx-select-e2e (real #[divan::bench] items) run three times per case: test mode (RAN log), "
                         "NEXTEST terse listing, --list tree; positional filters, --skip, --exact, builder skip_exact/skip_regex"),
     ]
+
+
+MANIFEST = {
+    "text": "Coq theorems, for every filter history and every tree: SplitVec insertion keeps the partition, the order of the skip half and "
+            "the multiset of the positive half; FilterSet::is_match on a set built by ANY interleaving of include/exclude equals "
+            "'no skip filter matches and (no positive filter or some positive matches)' without panicking (regex matching abstract, "
+            "exact = string equality); EntryTree::retain keeps exactly the selected cases in order (per argument), leaves no empty group "
+            "or emptied leaf, keeps an inner node iff a selected case lies below it; composed: what run_action keeps is the filter of "
+            "the cases by the specification. Tied to the code by differential runs of FilterSet and of the runner's own tree "
+            "construction + retain on random entry sets with the crate's regex engine as recorded oracle, and by running a real "
+            "#[divan::bench] binary with positional filters/--skip/--exact/builder skips in test, terse-list and list mode.",
+    "note": "Trusted: Coq kernel, extraction, OCaml driver, hooks (VerifFilterSet, regex_is_match, tree_dump), harness hx-select. "
+            "Regex semantics are an oracle; tree construction (from_benches/insert_group) is taken from the implementation, not modelled; "
+            "clap parsing only end to end. In release builds SplitVec::split_index's assertion is assert_unchecked (UB if violated); the "
+            "invariant theorem shows it is never violated.",
+    "technique": "machine-checked proof in Coq (structural induction over nested trees, permutation invariant of the split vector) "
+                 "+ history-driven differential correspondence + end-to-end runs of a real benchmark binary",
+}
